@@ -118,6 +118,248 @@ static void run_re( vcase::Case const& c )
     std::printf( "monitor max_inside %d\n", mon.worst );
 }
 
+// ---------------------------------------------------------------------------------------------------------
+// lock_array< spin_lock, mod_select_policy >: nest k1 h1 k2 h2 ...  (k = 0 lock(h)/unlock(cell), 1 try_lock(h),
+// 2 std::unique_lock<lock_array>( arr ) = lock_all/unlock_all, 3 std::unique_lock<lock_array>( arr, h )).
+// The monitor counts occupancy per *specified* cell h mod size, whatever cell the implementation returned.
+typedef cds::sync::lock_array<lock_type, cds::sync::mod_select_policy> arr_type;
+
+static void run_arr( vcase::Case const& c )
+{
+    size_t size = c.cfg.size() > 0 ? (size_t) c.cfg[0] : 1;
+    arr_type arr( size );
+    std::unique_ptr<atomics::atomic<int>[]> data( new atomics::atomic<int>[size + 2] );
+    for ( size_t i = 0; i < size + 2; ++i ) data[i].store( 0, atomics::memory_order_relaxed );
+    occupancy mon( size, c.threads.size());
+
+    std::function<void( int, vcase::op_t const&, size_t )> nest = [&]( int t, vcase::op_t const& op, size_t i ) {
+        if ( i + 1 >= op.size()) return;
+        long k = op[i], h = op[i + 1];
+        size_t spec = (size_t) h % size;
+        vcase::emitf( "inv %ld %ld", k, h );
+        if ( k == 2 ) {
+            std::unique_lock<arr_type> guard( arr );
+            for ( size_t x = 0; x < size; ++x ) { vcase::emitf( "enter %ld", (long) x ); mon.enter( x, t ); }
+            (void) data[0].load( atomics::memory_order_relaxed );
+            nest( t, op, i + 2 );
+            for ( size_t x = 0; x < size; ++x ) { mon.leave( x, t ); vcase::emitf( "leave %ld", (long) x ); }
+        }
+        else if ( k == 3 ) {
+            std::unique_lock<arr_type> guard( arr, (size_t) h );
+            vcase::emitf( "enter %ld", (long) spec );
+            mon.enter( spec, t );
+            (void) data[spec].load( atomics::memory_order_relaxed );
+            nest( t, op, i + 2 );
+            mon.leave( spec, t );
+            vcase::emitf( "leave %ld", (long) spec );
+        }
+        else {
+            size_t cell = k == 1 ? arr.try_lock( (size_t) h ) : arr.lock( (size_t) h );
+            if ( cell == arr_type::c_nUnspecifiedCell ) { vcase::emitf( "fail %ld", h ); return; }
+            vcase::emitf( "enter %ld", (long) cell );
+            mon.enter( spec, t );
+            (void) data[cell < size + 2 ? cell : size + 1].load( atomics::memory_order_relaxed );
+            nest( t, op, i + 2 );
+            mon.leave( spec, t );
+            vcase::emitf( "leave %ld", (long) cell );
+            arr.unlock( cell );
+        }
+    };
+
+    vcase::run_workers( c, [&]( int t ) {
+        for ( auto const& op : c.threads[t] ) {
+            nest( t, op, 0 );
+            vcase::emitf( "ret" );
+        }
+    }, nullptr, nullptr, 20000 );
+    vcase::print_log( c );
+    std::printf( "monitor max_inside %d\n", mon.worst );
+}
+
+// ---------------------------------------------------------------------------------------------------------
+// injecting_monitor< spin_lock >: nest k1 n1 k2 n2 ...  (k = 0 monitor.lock(node)/unlock(node), 3 monitor_scoped_lock)
+typedef cds::sync::injecting_monitor<lock_type> inj_monitor;
+struct inj_node {
+    inj_monitor::node_injection m_SyncMonitorInjection;
+};
+
+static void run_inj( vcase::Case const& c )
+{
+    size_t nnodes = c.cfg.size() > 0 ? (size_t) c.cfg[0] : 1;
+    inj_monitor monitor;
+    std::unique_ptr<inj_node[]> nodes( new inj_node[nnodes] );
+    std::unique_ptr<atomics::atomic<int>[]> data( new atomics::atomic<int>[nnodes] );
+    for ( size_t i = 0; i < nnodes; ++i ) data[i].store( 0, atomics::memory_order_relaxed );
+    occupancy mon( nnodes, c.threads.size());
+
+    std::function<void( int, vcase::op_t const&, size_t )> nest = [&]( int t, vcase::op_t const& op, size_t i ) {
+        if ( i + 1 >= op.size()) return;
+        long k = op[i], n = op[i + 1];
+        vcase::emitf( "inv %ld %ld", k, n );
+        auto body = [&]() {
+            vcase::emitf( "enter %ld", n );
+            mon.enter( n, t );
+            (void) data[n].load( atomics::memory_order_relaxed );
+            nest( t, op, i + 2 );
+            mon.leave( n, t );
+            vcase::emitf( "leave %ld", n );
+        };
+        if ( k == 3 ) {
+            inj_monitor::scoped_lock<inj_node> sl( monitor, nodes[n] );
+            body();
+        }
+        else {
+            monitor.lock( nodes[n] );
+            body();
+            monitor.unlock( nodes[n] );
+        }
+    };
+
+    vcase::run_workers( c, [&]( int t ) {
+        for ( auto const& op : c.threads[t] ) {
+            nest( t, op, 0 );
+            vcase::emitf( "ret" );
+        }
+    }, nullptr, nullptr, 20000 );
+    vcase::print_log( c );
+    std::printf( "monitor max_inside %d\n", mon.worst );
+}
+
+// ---------------------------------------------------------------------------------------------------------
+// pool_monitor< trivial_pool, backoff::empty, false >: nest k1 n1 k2 n2 ... (k = 0 monitor.lock/unlock, 3 scoped_lock)
+// cfg = [nodes; model spin fuel; pool capacity].
+//
+// trivial_pool: the LockPool of this instantiation (NOT cds::memory::vyukov_queue_pool, see Model/PoolMon.v): a
+// LIFO free list of preallocated spin locks.  allocate / deallocate perform exactly one instrumented access
+// (fetch_add on gate_), then - in the same scheduled step - pop / push the plain vector and emit
+// "pool_alloc x" / "pool_free x".  It also carries the implementation-side monitors of the pool properties.
+struct trivial_pool {
+    typedef lock_type value_type;
+    std::vector<value_type*>    all_, free_;
+    atomics::atomic<int>        gate_;
+    int bad_free = 0;       // deallocate of a lock that is locked, installed in a node, or already free
+    int bad_alloc = 0;      // allocate handed out a lock that is installed in a node
+    std::function<bool( value_type* )> installed;   // set by the harness: is p the m_pLock of some node?
+
+    static trivial_pool*& instance() { static trivial_pool* p = nullptr; return p; }
+
+    trivial_pool( size_t cap ) : gate_( 0 )
+    {
+        for ( size_t i = 0; i < cap; ++i ) all_.push_back( new value_type );
+        for ( size_t i = cap; i-- > 0; ) free_.push_back( all_[i] );   // back() = all_[0]: object 0 goes out first
+        instance() = this;
+    }
+    ~trivial_pool() { for ( auto p : all_ ) delete p; instance() = nullptr; }
+
+    long id_of( value_type* p ) const
+    {
+        for ( size_t i = 0; i < all_.size(); ++i ) if ( all_[i] == p ) return (long) i;
+        return -1;
+    }
+    bool is_free( value_type* p ) const
+    {
+        for ( auto q : free_ ) if ( q == p ) return true;
+        return false;
+    }
+    value_type* allocate( size_t )
+    {
+        gate_.fetch_add( 1, atomics::memory_order_relaxed );
+        value_type* p;
+        if ( free_.empty()) { vs::passthrough_scope ps; p = new value_type; all_.push_back( p ); }
+        else { p = free_.back(); free_.pop_back(); }
+        if ( installed && installed( p )) ++bad_alloc;
+        vcase::emitf( "pool_alloc %ld", id_of( p ));
+        return p;
+    }
+    void deallocate( value_type* p, size_t )
+    {
+        gate_.fetch_add( 1, atomics::memory_order_relaxed );
+        bool locked;
+        { vs::passthrough_scope ps; locked = p->is_locked(); }
+        if ( locked || is_free( p ) || ( installed && installed( p ))) ++bad_free;
+        free_.push_back( p );
+        vcase::emitf( "pool_free %ld", id_of( p ));
+    }
+};
+
+typedef cds::sync::pool_monitor<trivial_pool, cds::backoff::empty, false> pm_type;
+struct pool_node {
+    pm_type::node_injection m_SyncMonitorInjection;
+};
+
+static void run_pool( vcase::Case const& c )
+{
+    size_t nnodes = c.cfg.size() > 0 ? (size_t) c.cfg[0] : 1;
+    size_t cap = c.cfg.size() > 2 ? (size_t) c.cfg[2] : 8;
+    {
+        pm_type monitor( cap );
+        trivial_pool& pool = *trivial_pool::instance();
+        std::unique_ptr<pool_node[]> nodes( new pool_node[nnodes] );
+        std::unique_ptr<atomics::atomic<int>[]> data( new atomics::atomic<int>[nnodes] );
+        for ( size_t i = 0; i < nnodes; ++i ) data[i].store( 0, atomics::memory_order_relaxed );
+        occupancy mon( nnodes, c.threads.size());
+        int shared = 0;     // a lock installed in two nodes, or installed while in the free list
+        pool.installed = [&]( lock_type* p ) {
+            for ( size_t i = 0; i < nnodes; ++i ) if ( nodes[i].m_SyncMonitorInjection.m_pLock == p ) return true;
+            return false;
+        };
+        auto check_sharing = [&]() {
+            for ( size_t i = 0; i < nnodes; ++i ) {
+                lock_type* p = nodes[i].m_SyncMonitorInjection.m_pLock;
+                if ( !p ) continue;
+                if ( pool.is_free( p )) ++shared;
+                for ( size_t j = i + 1; j < nnodes; ++j ) if ( nodes[j].m_SyncMonitorInjection.m_pLock == p ) ++shared;
+            }
+        };
+
+        std::function<void( int, vcase::op_t const&, size_t )> nest = [&]( int t, vcase::op_t const& op, size_t i ) {
+            if ( i + 1 >= op.size()) return;
+            long k = op[i], n = op[i + 1];
+            vcase::emitf( "inv %ld %ld", k, n );
+            auto body = [&]() {
+                vcase::emitf( "enter %ld", n );
+                mon.enter( n, t );
+                check_sharing();
+                nest( t, op, i + 2 );
+                (void) data[n].load( atomics::memory_order_relaxed );
+                check_sharing();
+                mon.leave( n, t );
+                vcase::emitf( "leave %ld", n );
+            };
+            if ( k == 3 ) {
+                pm_type::scoped_lock<pool_node> sl( monitor, nodes[n] );
+                body();
+            }
+            else {
+                monitor.lock( nodes[n] );
+                body();
+                monitor.unlock( nodes[n] );
+            }
+        };
+
+        vcase::run_workers( c, [&]( int t ) {
+            for ( auto const& op : c.threads[t] ) {
+                nest( t, op, 0 );
+                vcase::emitf( "ret" );
+            }
+        }, nullptr, nullptr, 20000 );
+        vcase::print_log( c );
+        check_sharing();
+        std::printf( "monitor max_inside %d\n", mon.worst );
+        std::printf( "monitor shared %d\n", shared );
+        std::printf( "monitor bad_free %d\n", pool.bad_free + pool.bad_alloc );
+        // which event-log object is which pool lock (for the allocation-discipline check of checks/C22.py)
+        for ( size_t i = 0; i < pool.all_.size(); ++i ) {
+            auto it = vs::S().obj_ids.find( static_cast<void const*>( pool.all_[i] ));
+            if ( it != vs::S().obj_ids.end())
+                std::printf( "monitor lockobj %ld o%d\n", (long) i, it->second );
+        }
+        int leaked = 0;     // quiescent: every node must have given its lock back
+        for ( size_t i = 0; i < nnodes; ++i ) if ( nodes[i].m_SyncMonitorInjection.m_pLock ) ++leaked;
+        std::printf( "monitor still_installed %d\n", leaked );
+    }
+}
+
 int main( int argc, char** argv )
 {
     if ( argc < 2 ) { std::fprintf( stderr, "usage: %s casefile [spin|re|arr|inj|pool]\n", argv[0] ); return 2; }
@@ -127,6 +369,9 @@ int main( int argc, char** argv )
     while ( vcase::read_case( in, c )) {
         if ( mode == "spin" ) run_spin( c );
         else if ( mode == "re" ) run_re( c );
+        else if ( mode == "arr" ) run_arr( c );
+        else if ( mode == "inj" ) run_inj( c );
+        else if ( mode == "pool" ) run_pool( c );
         else { std::fprintf( stderr, "unknown mode %s\n", mode.c_str()); return 2; }
     }
     return 0;
